@@ -15,7 +15,7 @@ PROFILE = dict(
     cwds=["root"],
     weights=dict(run=2, faulted=0.4, start=2, finish=2, sched_cancel=0.4, purge=0.3, acct_flush=0.3, modify_source=0.3,
                  delete_output=0.3, edit_spec=0.3),
-    p_nested=0.25, p_job_ok=0.6, p_hashing=0.5, p_kill_streak=0.3,
+    p_nested=0.25, p_nested_submit=0.3, p_job_ok=0.6, p_hashing=0.5, p_kill_streak=0.3,
 )
 
 
